@@ -1,5 +1,83 @@
-(* Props/C16.v — placeholder; path theorems are added from Proofs/PathProofs.v. *)
-From YQ Require Import Base.Str Model.Node Model.Store Model.Eval.
-Theorem C16_selfcheck : forall st, eval 1 ESelf false [] [] st = Ok ([], st).
-Proof. reflexivity. Qed.
-Print Assumptions C16_selfcheck.
+(* Props/C16.v — property theorems only. *)
+From Coq Require Import Arith ZArith.
+From YQ Require Import Base.Str Model.Node Model.Store Model.Eval Spec.Lens Proofs.DeleteProofs Proofs.PathProofs.
+
+(* On a well-keyed document (what every decoder produces: each sequence child
+   records its actual index, keys unique), for every node reachable at a
+   position p: the path it reports is the list of keys/indices by which it is
+   reached ... *)
+Theorem C16_path_is_position : forall doc p m,
+  wk doc -> get_at doc p = Some m -> path_of (init_store doc) (O, p) = position_path doc p.
+Proof. exact path_of_doc. Qed.
+Print Assumptions C16_path_is_position.
+
+(* ... traversing that path from the root returns the node ... *)
+Theorem C16_path_roundtrip : forall doc p m,
+  wk doc -> get_at doc p = Some m -> trav_path (path_of (init_store doc) (O, p)) doc = Some p.
+Proof. exact path_roundtrip. Qed.
+Print Assumptions C16_path_roundtrip.
+
+(* ... key is the last element of path ... *)
+Theorem C16_key_is_last : forall doc q i m,
+  wk doc -> get_at doc (q ++ [i]) = Some m ->
+  exists k, key_of (init_store doc) (O, q ++ [i]) = Some k
+            /\ path_of (init_store doc) (O, q ++ [i]) = path_of (init_store doc) (O, q) ++ [rkey_pelem k].
+Proof. exact key_is_last. Qed.
+Print Assumptions C16_key_is_last.
+
+(* ... and parent is the container that holds the node at that position *)
+Theorem C16_parent_holds : forall doc q i m,
+  get_at doc (q ++ [i]) = Some m ->
+  parent_ptr (O, q ++ [i]) = Some (O, q)
+  /\ exists par, deref (init_store doc) (O, q) = Some par /\ nth_error (children par) i = Some m.
+Proof. exact parent_holds. Qed.
+Print Assumptions C16_parent_holds.
+
+(* delete keeps a sequence well-keyed (survivors renumbered) *)
+Theorem C16_delete_keeps_well_keyed : forall items victim pos kept,
+  Forall (fun kc => exists i, fst kc = RIdx i) items ->
+  well_keyed_from kept (remove_item items victim pos kept).
+Proof. exact remove_item_keys. Qed.
+Print Assumptions C16_delete_keeps_well_keyed.
+
+(* "after the container has been reordered, sliced, filtered, concatenated or
+   rebuilt" the statement is FALSE on the faithful model (and on yq): AddChild
+   keeps a child's old Key.  One witness per rebuilding operator; each is a
+   recorded known finding replayed on the implementation (the pinned tests pin
+   this output, so it is not repaired). *)
+Definition kids_paths (f : expr) : expr := EPipe f (ECollect (Some (EPipe (EIndex ESelf None) EPath))).
+Definition ints (l : list N) : node := Seq (renumber_from 0 (List.map (fun i => Scalar TInt (dec_N i)) l)).
+Definition paths (l : list N) : node := Seq (renumber_from 0 (List.map (fun i => Seq [(RIdx 0, Scalar TInt (dec_N i))]) l)).
+
+Theorem C16_sort_refuted : exists doc,
+  run (kids_paths (ESortBy ESelf)) doc = tag_ok ++ ser_node (paths [1; 2; 0]) ++ [10].
+Proof. exists (ints [3; 1; 2]). vm_compute. reflexivity. Qed.
+Theorem C16_reverse_refuted : exists doc,
+  run (kids_paths EReverse) doc = tag_ok ++ ser_node (paths [1; 0]) ++ [10].
+Proof. exists (ints [1; 2]). vm_compute. reflexivity. Qed.
+Theorem C16_slice_refuted : exists doc,
+  run (kids_paths (ESlice ESelf (ELit TInt [49]) (ELit TInt [51]))) doc = tag_ok ++ ser_node (paths [1; 2]) ++ [10].
+Proof. exists (ints [1; 2; 3]). vm_compute. reflexivity. Qed.
+Theorem C16_filter_refuted : exists doc,
+  run (kids_paths (EFilter (EBin ONe ESelf (ELit TInt [49])))) doc = tag_ok ++ ser_node (paths [1; 2]) ++ [10].
+Proof. exists (ints [1; 2; 3]). vm_compute. reflexivity. Qed.
+Theorem C16_add_refuted : exists doc,
+  run (kids_paths (EBin OAdd ESelf (ECollect (Some (ELit TInt [57]))))) doc = tag_ok ++ ser_node (paths [0; 0]) ++ [10].
+Proof. exists (ints [1]). vm_compute. reflexivity. Qed.
+Theorem C16_collect_refuted : exists doc,
+  run (kids_paths (ECollect (Some (EUnion (EIndex ESelf (Some (ELit TInt [49]))) (EIndex ESelf (Some (ELit TInt [48]))))))) doc
+  = tag_ok ++ ser_node (paths [1; 0]) ++ [10].
+Proof. exists (ints [1; 2]). vm_compute. reflexivity. Qed.
+Theorem C16_unique_refuted : exists doc,
+  run (kids_paths (EUniqueBy ESelf)) doc = tag_ok ++ ser_node (paths [0; 2]) ++ [10].
+Proof. exists (ints [1; 1; 2]). vm_compute. reflexivity. Qed.
+Theorem C16_flatten_refuted : exists doc,
+  run (kids_paths (EFlatten (-1))) doc = tag_ok ++ ser_node (paths [0; 0]) ++ [10].
+Proof. exists (Seq [(RIdx 0, ints [1]); (RIdx 1, ints [2])]). vm_compute. reflexivity. Qed.
+
+(* non-vacuity: a nested well-keyed document and a deep position *)
+Example C16_example :
+  let doc := Map [([97], Seq [(RIdx 0, Scalar TInt [49]); (RIdx 1, Map [([98], Scalar TStr [120])])])] in
+  wk doc /\ get_at doc [O; 1%nat; O] = Some (Scalar TStr [120])
+  /\ path_of (init_store doc) (O, [O; 1%nat; O]) = [PStr [97]; PInt 1; PStr [98]].
+Proof. cbn. repeat split; reflexivity. Qed.
